@@ -77,6 +77,8 @@ class Summaries:
             E["<%s as core::iter::Iterator>::nth" % it] = self.iter_nth
             E["<%s as core::iter::Iterator>::size_hint" % it] = self.iter_size_hint
             E["<%s as core::iter::ExactSizeIterator>::len" % it] = self.iter_len
+        E["<core::iter::Enumerate<I> as core::iter::Iterator>::next"] = self.enumerate_assume
+        E["<core::iter::Enumerate<I> as core::iter::Iterator>::nth"] = self.enumerate_assume
         E["core::iter::Iterator::zip"] = self.zip_new
         E["<core::iter::Zip<A, B> as core::iter::Iterator>::next"] = self.iter_next
         E["core::iter::Iterator::any"] = self.iter_any
@@ -109,6 +111,7 @@ class Summaries:
         E["core::intrinsics::assume"] = self.unit
         E["core::intrinsics::compare_bytes"] = self.i32_top
         self.suffix.append(("::precondition_check", self.unit))
+        self.prefix = [("core::arch::x86_64::_mm_", self.pure_top), ("core::core_arch::x86::", self.pure_top)]
 
     def apply(self, st, fr, inst, t, callee, args):
         p = nz(callee["path"])
@@ -118,6 +121,16 @@ class Summaries:
                 if p.endswith(suf):
                     h = hh
                     break
+        if h is None:
+            for pre, hh in getattr(self, "prefix", []):
+                if p.startswith(pre):
+                    h = hh
+                    break
+        if h is None and self.ctx.model == "valid" and callee["dpath"] in ("minimal_lexical::libm::powf", "minimal_lexical::libm::powd"):
+            # assumption A6: the bundled libm pow is total and non-panicking on (10.0, 0..=22), like std's powf;
+            # its unsafe indexing is still analysed in the arbitrary-byte model (C08)
+            self.ctx.notes["A6: bundled libm pow treated as a total function"] += 1
+            h = self.float_top
         if h is None:
             return None
         return h(st, fr, inst, t, callee, args)
@@ -257,6 +270,18 @@ class Summaries:
         if oa is None:
             return None
         return [(st, oa)]
+
+    def enumerate_assume(self, st, fr, inst, t, callee, args):
+        """assumption A1 (an iterator yields fewer than 2^62 items): Enumerate's running index is below 2^62.
+        Not a summary: the body is still inlined from its own MIR."""
+        d = G.ptr.get(args[0]) if type(args[0]) is int else None
+        if d and d[0] == "loc":
+            ck = d[1] + (("f", 1),)
+            c = st.env.get(ck)
+            if is_int(c):
+                if not st.set_iv(c, 0, A1_BOUND - 1):
+                    return []
+        return None
 
     def zip_new(self, st, fr, inst, t, callee, args):
         def inner(v):
@@ -543,6 +568,11 @@ class Summaries:
         out = [(s0, none())]
         out.append((st, some(new_int(0, max(R[1] - 1, 0)))))
         return out
+
+    def pure_top(self, st, fr, inst, t, callee, args):
+        """SIMD value intrinsics: pure functions of their (by-value) arguments"""
+        from .engine import fresh_of_type
+        return [(st, fresh_of_type(t["dest"]["ty"]))]
 
     def float_top(self, st, fr, inst, t, callee, args):
         return [(st, new_top())]
